@@ -301,6 +301,8 @@ def run_hypothesis(col, name, strategy, body, max_examples, seed, shrink=True, r
         except Violation:
             v = last["v"]
             col.record_failure(v.key, v.detail, {"check": name, "case": last["case"]})
+            if "|stall|" in v.key:
+                return       # every further stalling case would cost minutes: this job has delivered its verdict
         except hypothesis.errors.Flaky as e:
             # the case did not fail again when Hypothesis re-ran it.  If an oracle did observe a property failure on the real code, it is reported
             # (the failure happened; it depends on randomness inside the library that the drawn case does not pin); otherwise it is a harness error.
